@@ -106,6 +106,11 @@ class Result:
         self.cmd = ""
         self.coverage = {}
 
+    def tail(self, n=60):
+        keep = [l for l in self.stdout.splitlines()
+                if not l.startswith(("Parsing file", "Semantic processing", "Linting of", '<<"'))]
+        return "\n".join(keep[-n:])
+
     def lines(self, tag):
         return self.tagged.get(tag, [])
 
@@ -169,6 +174,9 @@ def run_tlc(module, cfg, env=None, workers=1, simulate=None, depth=None,
             m = _STATS.search(line)
             if m:
                 r.states, r.distinct = int(m.group(1)), int(m.group(2))
+            m = re.match(r"The number of states generated: (\d+)", line)
+            if m:
+                r.states = r.distinct = int(m.group(1))
             m = re.match(r"Error: Invariant (\S+) is violated", line)
             if m:
                 r.violated.append(m.group(1))
